@@ -1,7 +1,7 @@
 From Coq Require Import ExtrOcamlBasic.
-From FV.Model Require Import Glue Bytes Bson Events EventsOk EventsMore.
+From FV.Model Require Import Glue Bytes Bson Events EventsOk EventsMore EventsAlias.
 Extraction "events_model.ml" zadd zmul zopp zeqb zltb z_of_nat z_to_nat z_of_n z_to_n
-  model_obs_run added_of results_of written_of
+  model_obs_run step step_write caller_write init added_of results_of written_of
   c14_ok_cumulative c14_ok_sampling c14_ok_passthrough c14_ok_errors c14_ok_roundtrip
   model_obs_roundtrip model_flat_keys marshal enc_doc time_to_ms ms_to_time perf_wf perf_eqb
   expected_cumulative expected_sampling
